@@ -18,18 +18,18 @@
    argument forms (Model/Tenalg.v): marg / mside = the Python forms of tensordot's modes / batched_modes (int, pair of ints or
    lists, flat list), py_index n z = Python indexing of a length-n sequence (negative from the end), validate_contraction =
    _validate_contraction_modes, tensordot_raw = tensordot as called;  mode_dot_z / mode_dot_e_z and multi_mode_dot_z /
-   multi_mode_dot_e_z = the routines with modes as Python ints, AS THE CODE IS (the einsum mode_dot and both multi_mode_dot
-   carry the negative-mode defects refuted below: known findings, fix candidate build/fix_candidates/C02_negative_modes.diff);
+   multi_mode_dot_e_z = the routines with modes as Python ints, as repaired by /repo 92eb2a5 (the *_before_92eb2a5
+   definitions keep the old rules for the regression Examples);
    wvb / maskvb, w_okb / mask_okb = weights / mask with R (one per row) entries or a single broadcast entry;
    einsum_sizes_ok = np.einsum's rank / equal-size check (multi_mode_dot_e).
    Round 5 (55 statements): tensordot index formulas and core = einsum, multi_mode_dot core = einsum, validate_contraction,
-   tensordot(modes=k) = inner(n_modes=k), broadcast weights, negative modes (2 refuted / partial pairs); every other theorem full. *)
-From Coq Require Import List Arith ZArith Ring_theory Permutation Lia.
+   tensordot(modes=k) = inner(n_modes=k), broadcast weights; round 6: any Python mode for mode_dot / multi_mode_dot (full). *)
+From Coq Require Import List Arith ZArith Ring_theory Permutation Lia Bool.
 From TLV Require Import Base.Shape Base.PyList Base.Tensor Base.BigSum Model.Base Model.Tenalg
   Proofs.TenalgProofs Proofs.TenalgProofsKR Proofs.TenalgProofsEinsum Proofs.TenalgProofsInner
   Proofs.TenalgProofsOuter Proofs.TenalgProofsSample Proofs.TenalgProofsSort Proofs.TenalgProofsEinsumVec Proofs.TenalgProofsMulti Proofs.TenalgProofsEinsumInner
   Proofs.TenalgProofsEinsumMttkrp Proofs.TenalgProofsEinsumKR Proofs.TenalgProofsEinsumOuter Proofs.TenalgProofsMultiGen Proofs.TenalgProofsMultiGen2 Proofs.TenalgProofsMemory
-  Proofs.TenalgProofsTdotE Proofs.TenalgProofsTdotC Proofs.TenalgProofsEinsumMulti Proofs.TenalgProofsValidate Proofs.TenalgProofsTdotInner Proofs.TenalgProofsKRBcast Proofs.TenalgProofsNegMode Proofs.TenalgProofsNegMulti.
+  Proofs.TenalgProofsTdotE Proofs.TenalgProofsTdotC Proofs.TenalgProofsEinsumMulti Proofs.TenalgProofsValidate Proofs.TenalgProofsTdotInner Proofs.TenalgProofsKRBcast Proofs.TenalgProofsNegMode Proofs.TenalgProofsNegMulti Proofs.TenalgProofsReject Proofs.TenalgProofsRepeat Proofs.TenalgProofsEq.
 Import ListNotations.
 
 Definition ring_of {F} (Op : rops F) := ring_theory (r0 Op) (r1 Op) (radd Op) (rmul Op) (rsub Op) (ropp Op) (@eq F).
@@ -81,12 +81,9 @@ Corollary C02_mode_dot_backends_agree : forall (F : Type) (Op : rops F), ring_of
 Proof. exact @mode_dot_backends_agree. Qed.
 Print Assumptions C02_mode_dot_backends_agree.
 
-(* mode given as a Python int z, -N <= z < N (py_index N z = Some k: negative modes count from the end).
-   Core backend (mode_dot_z): the textbook product at the normalised mode k - FULL.
-   Einsum backend as it is (mode_dot_e_z): a matrix operand with a NEGATIVE mode yields a tensor of the tensor's own shape (the
-   new label is summed out) - REFUTED by a computed witness (known finding einsum_mode_dot_negative_mode, fix candidate
-   build/fix_candidates/C02_negative_modes.diff); what does hold (PARTIAL, restricted to z >= 0 or a vector operand): the two
-   backends agree. *)
+(* mode given as a Python int z, -N <= z < N (py_index N z = Some k: negative modes count from the end): both backends compute
+   the textbook product at the resolved mode k and agree (the einsum backend since /repo 92eb2a5; its old rule is the labelled
+   regression Example C02_mode_dot_einsum_negative_mode_before_92eb2a5) - FULL *)
 Theorem C02_mode_dot_core_any_mode : forall (F : Type) (Op : rops F) (T M : tensor F) (z : Z) (k : nat) (tr : bool) (a b : nat),
   py_index (ndim T) z = Some k ->
   wf T -> wf M -> 0 < prod (shape T) -> shape M = [a; b] ->
@@ -99,6 +96,19 @@ Theorem C02_mode_dot_core_any_mode : forall (F : Type) (Op : rops F) (T M : tens
 Proof. exact @mode_dot_z_matrix_spec. Qed.
 Print Assumptions C02_mode_dot_core_any_mode.
 
+Theorem C02_mode_dot_einsum_any_mode : forall (F : Type) (Op : rops F), ring_of Op ->
+  forall (T M : tensor F) (z : Z) (k : nat) (tr : bool) (a b : nat),
+  py_index (ndim T) z = Some k ->
+  wf T -> wf M -> 0 < prod (shape T) -> shape M = [a; b] ->
+  (if tr then a else b) = nth k (shape T) 0 -> 0 < (if tr then b else a) ->
+  exists R, mode_dot_e_z Op T M z tr = Ok R /\ wf R /\
+    shape R = set_nth k (if tr then b else a) (shape T) /\
+    forall idx, inb (shape R) idx ->
+      get (r0 Op) R idx =
+      bsum Op (nth k (shape T) 0) (fun i => rmul Op (mentry Op M tr (nth k idx 0) i) (get (r0 Op) T (set_nth k i idx))).
+Proof. exact @mode_dot_e_z_matrix_spec. Qed.
+Print Assumptions C02_mode_dot_einsum_any_mode.
+
 Theorem C02_mode_dot_core_vector_any_mode : forall (F : Type) (Op : rops F) (T v : tensor F) (z : Z) (k : nat) (tr : bool) (n : nat),
   py_index (ndim T) z = Some k -> k < ndim T ->
   wf T -> 0 < prod (shape T) -> shape v = [n] -> n = nth k (shape T) 0 ->
@@ -108,49 +118,149 @@ Theorem C02_mode_dot_core_vector_any_mode : forall (F : Type) (Op : rops F) (T v
 Proof. exact @mode_dot_z_vector_spec. Qed.
 Print Assumptions C02_mode_dot_core_vector_any_mode.
 
-Theorem C02_mode_dot_einsum_negative_mode_refuted :
-  exists (T M R1 R2 : tensor Z) (z : Z), (z < 0)%Z /\ wf T /\ wf M /\ py_index (ndim T) z = Some 1 /\ shape M = [1; 2] /\
-    mode_dot_z ZR T M z false = Ok R1 /\ mode_dot_e_z ZR T M z false = Ok R2 /\ R1 <> R2.
-Proof. exact mode_dot_einsum_negative_mode_refuted. Qed.
-Print Assumptions C02_mode_dot_einsum_negative_mode_refuted.
-
-Theorem C02_mode_dot_any_mode_backends_agree_partial : forall (F : Type) (Op : rops F), ring_of Op ->
+Theorem C02_mode_dot_any_mode_backends_agree : forall (F : Type) (Op : rops F), ring_of Op ->
   forall (T M : tensor F) (z : Z) (k : nat) (tr : bool) (a b : nat),
-  py_index (ndim T) z = Some k -> (0 <= z)%Z -> k < ndim T ->
+  py_index (ndim T) z = Some k ->
   wf T -> wf M -> 0 < prod (shape T) -> shape M = [a; b] ->
   (if tr then a else b) = nth k (shape T) 0 -> 0 < (if tr then b else a) ->
   mode_dot_z Op T M z tr = mode_dot_e_z Op T M z tr.
-Proof. exact @mode_dot_z_backends_agree_nonneg. Qed.
-Print Assumptions C02_mode_dot_any_mode_backends_agree_partial.
+Proof. exact @mode_dot_z_backends_agree. Qed.
+Print Assumptions C02_mode_dot_any_mode_backends_agree.
 
 Theorem C02_mode_dot_vector_any_mode_backends_agree : forall (F : Type) (Op : rops F), ring_of Op ->
   forall (T v : tensor F) (z : Z) (k : nat) (tr : bool) (n : nat),
-  py_index (ndim T) z = Some k -> k < ndim T ->
+  py_index (ndim T) z = Some k ->
   wf T -> 0 < prod (shape T) -> shape v = [n] -> n = nth k (shape T) 0 ->
   mode_dot_z Op T v z tr = mode_dot_e_z Op T v z tr.
 Proof. exact @mode_dot_z_backends_agree_vector. Qed.
 Print Assumptions C02_mode_dot_vector_any_mode_backends_agree.
 
-(* multi_mode_dot with the modes as Python ints, both backends AS THEY ARE (multi_mode_dot_z / multi_mode_dot_e_z: sort by the raw
-   mode numbers, then mode - decrement resolved from the end): REFUTED - with v0 on mode 0 and v2 on mode -1 of a (2,2,2) tensor
-   both backends return a wrong vector without an error (known finding multi_mode_dot_negative_modes, fix candidate
-   build/fix_candidates/C02_negative_modes.diff); what does hold (PARTIAL, restricted to a single operand): every mode -N <= z < N
-   is right.  For non-negative modes the theorems C02_multi_mode_dot_core / _einsum above apply. *)
-Theorem C02_multi_mode_dot_negative_modes_refuted :
-  exists (T v0 v2 R Rc Re : tensor Z),
-    wf T /\ shape T = [2; 2; 2] /\ shape v0 = [2] /\ shape v2 = [2] /\
-    multi_mode_dot ZR T [v0; v2] (Some [0; 2]) None false = Ok R /\
-    multi_mode_dot_e ZR T [v0; v2] (Some [0; 2]) None false = Ok R /\
-    multi_mode_dot_z ZR T [v0; v2] [0; -1]%Z None false = Ok Rc /\
-    multi_mode_dot_e_z ZR T [v0; v2] [0; -1]%Z None false = Ok Re /\
-    Rc <> R /\ Re <> R.
-Proof. exact multi_mode_dot_negative_modes_refuted. Qed.
-Print Assumptions C02_multi_mode_dot_negative_modes_refuted.
+Example C02_mode_dot_einsum_negative_mode_before_92eb2a5 :
+  let T : tensor Z := mk [2; 2] [1; 2; 3; 4]%Z in let M : tensor Z := mk [1; 2] [1; 1]%Z in
+  mode_dot_e_z_before_92eb2a5 ZR T M (-1)%Z false = Ok (mk [2; 2] [1; 2; 3; 4]%Z) /\
+  mode_dot_e_z ZR T M (-1)%Z false = Ok (mk [2; 1] [3; 7]%Z) /\
+  mode_dot_z ZR T M (-1)%Z false = Ok (mk [2; 1] [3; 7]%Z).
+Proof. exact mode_dot_einsum_negative_mode_before_92eb2a5. Qed.
 
-Theorem C02_multi_mode_dot_any_mode_single_operand_partial : forall (F : Type) (Op : rops F) (T M : tensor F) (z : Z) (tr : bool),
-  multi_mode_dot_z Op T [M] [z] None tr = mode_dot_z Op T (if tr then conj_t Op (transpose_rev Op M) else M) z false.
-Proof. exact @multi_mode_dot_z_single. Qed.
-Print Assumptions C02_multi_mode_dot_any_mode_single_operand_partial.
+(* multi_mode_dot with the modes as Python ints (multi_mode_dot_z / multi_mode_dot_e_z: since /repo 92eb2a5 the modes are resolved
+   before the sort; then sort by mode number and mode - decrement, resolved from the end when negative): for every list ms of
+   valid Python modes with resolved values ks, distinct on the non-skipped operands, both backends compute what the
+   non-negative-mode routines compute on ks (C02_multi_mode_dot_any_modes_resolved), hence the index formula of
+   C02_multi_mode_dot_core and the same tensor under both backends (C02_multi_mode_dot_any_modes) - FULL.  The rule before
+   92eb2a5 (sort by the raw numbers) is the labelled regression Example C02_multi_mode_dot_negative_modes_before_92eb2a5. *)
+Theorem C02_multi_mode_dot_any_modes_resolved : forall (F : Type) (Op : rops F) (T : tensor F) (Ms : list (tensor F))
+  (ms : list Z) (ks : list nat) (skip : option nat) (tr : bool),
+  let L := filter (fun x => negb (is_skip skip (snd x))) (sort_by_mode (zip3 Ms (Some ks))) in
+  Forall2 (fun z k => py_index (ndim T) z = Some k) ms ks -> NoDup (map (@t_mode F) L) ->
+  multi_mode_dot_z Op T Ms ms skip tr = multi_mode_dot Op T Ms (Some ks) skip tr /\
+  multi_mode_dot_e_z Op T Ms ms skip tr = multi_mode_dot_e Op T Ms (Some ks) skip tr.
+Proof. exact @multi_mode_dot_z_resolved. Qed.
+Print Assumptions C02_multi_mode_dot_any_modes_resolved.
+
+Theorem C02_multi_mode_dot_any_modes : forall (F : Type) (Op : rops F), ring_of Op ->
+  forall (T : tensor F) (Ms : list (tensor F)) (ms : list Z) (ks : list nat) (skip : option nat) (tr : bool),
+  let L := filter (fun x => negb (is_skip skip (snd x))) (sort_by_mode (zip3 Ms (Some ks))) in
+  Forall2 (fun z k => py_index (ndim T) z = Some k) ms ks ->
+  wf T -> 0 < prod (shape T) -> NoDup (map (@t_mode F) L) -> Forall (operand_fits tr (shape T)) L ->
+  exists R, multi_mode_dot_z Op T Ms ms skip tr = Ok R /\ multi_mode_dot_e_z Op T Ms ms skip tr = Ok R /\
+    wf R /\ shape R = outs tr L 0 (shape T) /\
+    forall o, inb (shape R) o ->
+      get (r0 Op) R o = ssum Op (sizes L 0 (shape T)) (fun is_ => rmul Op (coef Op tr L 0 is_ o) (get (r0 Op) T (full L 0 is_ o))).
+Proof. exact @multi_mode_dot_z_full. Qed.
+Print Assumptions C02_multi_mode_dot_any_modes.
+
+Example C02_multi_mode_dot_negative_modes_before_92eb2a5 :
+  let T : tensor Z := mk [2; 2; 2] [1; 2; 3; 4; 5; 6; 7; 8]%Z in
+  let v0 : tensor Z := mk [2] [1; 2]%Z in let v2 : tensor Z := mk [2] [1; 3]%Z in
+  multi_mode_dot ZR T [v0; v2] (Some [0; 2]) None false = Ok (mk [2] [53; 77]%Z) /\
+  multi_mode_dot_z_before_92eb2a5 ZR T [v0; v2] [0; -1]%Z None false = Ok (mk [2] [37; 85]%Z) /\
+  multi_mode_dot_e_z_before_92eb2a5 ZR T [v0; v2] [0; -1]%Z None false = Ok (mk [2] [22; 108]%Z) /\
+  multi_mode_dot_z ZR T [v0; v2] [0; -1]%Z None false = Ok (mk [2] [53; 77]%Z) /\
+  multi_mode_dot_e_z ZR T [v0; v2] [0; -1]%Z None false = Ok (mk [2] [53; 77]%Z).
+Proof. exact multi_mode_dot_negative_modes_before_92eb2a5. Qed.
+
+(* the SAME mode named twice (matrix operands).  Core: the successive products in listing order, T x_m A x_m B - FULL
+   (C02_multi_mode_dot_core_repeated_mode; each product is C02_mode_dot_core).  Einsum backend AS IT IS: contracts every operand
+   with the tensor's original label and overwrites the output label - REFUTED by computed witnesses (a different tensor, or a
+   size error on a well-formed successive product; known finding einsum_multi_mode_dot_repeated_modes, fix candidate
+   build/fix_candidates/C02_einsum_multi_mode_dot_repeated_modes.diff); what does hold (PARTIAL, restricted to pairwise distinct
+   modes): core = einsum. *)
+Theorem C02_multi_mode_dot_core_repeated_mode : forall (F : Type) (Op : rops F) (T A B : tensor F) (m : nat) (tr : bool),
+  ndim A <> 1 ->
+  multi_mode_dot Op T [A; B] (Some [m; m]) None tr =
+  rbind (mode_dot Op T (if tr then conj_t Op (transpose_rev Op A) else A) m false)
+        (fun R => mode_dot Op R (if tr then conj_t Op (transpose_rev Op B) else B) m false).
+Proof. exact @multi_mode_dot_core_repeated_mode. Qed.
+Print Assumptions C02_multi_mode_dot_core_repeated_mode.
+
+Theorem C02_multi_mode_dot_einsum_repeated_modes_refuted :
+  exists (T A B A3 B3 Rc Re R3 : tensor Z),
+    multi_mode_dot ZR T [A; B] (Some [1; 1]) None false = Ok Rc /\
+    rbind (mode_dot ZR T A 1 false) (fun R => mode_dot ZR R B 1 false) = Ok Rc /\
+    multi_mode_dot_e ZR T [A; B] (Some [1; 1]) None false = Ok Re /\ Rc <> Re /\
+    multi_mode_dot ZR T [A3; B3] (Some [1; 1]) None false = Ok R3 /\
+    multi_mode_dot_e ZR T [A3; B3] (Some [1; 1]) None false = Err.
+Proof. exact multi_mode_dot_einsum_repeated_modes_refuted. Qed.
+Print Assumptions C02_multi_mode_dot_einsum_repeated_modes_refuted.
+
+Corollary C02_multi_mode_dot_distinct_modes_backends_agree_partial : forall (F : Type) (Op : rops F), ring_of Op ->
+  forall (T : tensor F) (Ms : list (tensor F)) (modes : option (list nat)) (skip : option nat) (tr : bool),
+  let L := filter (fun x => negb (is_skip skip (snd x))) (sort_by_mode (zip3 Ms modes)) in
+  wf T -> 0 < prod (shape T) -> NoDup (map (@t_mode F) L) -> Forall (operand_fits tr (shape T)) L ->
+  multi_mode_dot Op T Ms modes skip tr = multi_mode_dot_e Op T Ms modes skip tr.
+Proof. exact @multi_mode_dot_backends_agree. Qed.
+Print Assumptions C02_multi_mode_dot_distinct_modes_backends_agree_partial.
+
+(* np.einsum's broadcasting (einsum_np: label size = largest axis size, a size-1 axis is broadcast, anything else raises): when all
+   axes of every label agree (einsum_sizes_ok) nothing is broadcast and the call is the plain einsum of the theorems - FULL.
+   A size-1 MISMATCH is a malformed request: core multi_mode_dot and mode_dot of both backends reject it, einsum multi_mode_dot AS
+   IT IS returns a tensor - witness C02_multi_mode_dot_einsum_size1_broadcast_refuted (known finding
+   einsum_multi_mode_dot_size1_broadcast, same fix candidate); for operands that fit (C02_multi_mode_dot_backends_agree) the backends agree. *)
+Theorem C02_einsum_np_no_broadcast : forall (F : Type) (Op : rops F) (ins : list (list nat)) (out : list nat) (ts : list (tensor F)),
+  length ins = length ts -> einsum_sizes_ok ins ts = true -> einsum_np Op ins out ts = Ok (einsum Op ins out ts).
+Proof. exact @einsum_np_sizes_ok. Qed.
+Print Assumptions C02_einsum_np_no_broadcast.
+
+Theorem C02_multi_mode_dot_einsum_size1_broadcast_refuted :
+  exists (T M R : tensor Z), shape T = [2; 2] /\ shape M = [2; 1] /\
+    multi_mode_dot ZR T [M] (Some [1]) None false = Err /\ mode_dot_e ZR T M 1 false = Err /\
+    multi_mode_dot_e ZR T [M] (Some [1]) None false = Ok R.
+Proof. exact multi_mode_dot_einsum_size1_broadcast_refuted. Qed.
+Print Assumptions C02_multi_mode_dot_einsum_size1_broadcast_refuted.
+
+(* rejection of wrongly sized weights / masks: bad_size w n = w has neither n entries nor a single one *)
+Theorem C02_khatri_rao_rejects_weights : forall (F : Type) (Op : rops F) (Ms : list (tensor F)) (w : tensor F) (mask : option (tensor F)) (skip : option nat) (R : nat),
+  let Ms' := skipl skip Ms in
+  Ms' <> [] -> mats R Ms' -> bad_size w R -> khatri_rao Op Ms (Some w) mask skip = Err.
+Proof. exact @khatri_rao_rejects_weights. Qed.
+Print Assumptions C02_khatri_rao_rejects_weights.
+
+Theorem C02_khatri_rao_rejects_mask : forall (F : Type) (Op : rops F) (Ms : list (tensor F)) (w : option (tensor F)) (m : tensor F) (skip : option nat) (R : nat),
+  let Ms' := skipl skip Ms in
+  Ms' <> [] -> mats R Ms' -> bad_size m (prod (map nrows Ms')) -> khatri_rao Op Ms w (Some m) skip = Err.
+Proof. exact @khatri_rao_rejects_mask. Qed.
+Print Assumptions C02_khatri_rao_rejects_mask.
+
+Theorem C02_khatri_rao_einsum_rejects : forall (F : Type) (Op : rops F) (Ms : list (tensor F)) (w mask : option (tensor F)) (skip : option nat),
+  let Ms' := skipl skip Ms in
+  2 <= length Ms' ->
+  (exists w0, w = Some w0 /\ (ndim w0 <> 1 \/ bad_size w0 (ncols (hd (mk [] []) Ms')))) \/
+  (exists m0, mask = Some m0 /\ shape m0 <> map nrows Ms') ->
+  khatri_rao_e Op Ms w mask skip = Err.
+Proof. exact @khatri_rao_e_rejects. Qed.
+Print Assumptions C02_khatri_rao_einsum_rejects.
+
+Theorem C02_mttkrp_rejects_weights : forall (F : Type) (Op : rops F) (T : tensor F) (w : tensor F) (fs : list (tensor F)) (k R : nat),
+  remove_nth k fs <> [] -> mats R (remove_nth k fs) -> bad_size w R -> mttkrp Op T (Some w) fs k = Err.
+Proof. exact @mttkrp_rejects_weights. Qed.
+Print Assumptions C02_mttkrp_rejects_weights.
+
+Example C02_nonvacuous_rejections :
+  let A : tensor Z := mk [2; 2] [1; 2; 3; 4]%Z in let B : tensor Z := mk [3; 2] [1; 2; 3; 4; 5; 6]%Z in
+  let w3 : tensor Z := mk [3] [1; 2; 3]%Z in let m2 : tensor Z := mk [2] [1; 1]%Z in
+  skipl None [A; B] <> [] /\ mats 2 (skipl None [A; B]) /\ bad_size w3 2 /\ bad_size m2 (prod (map nrows (skipl None [A; B]))) /\
+  2 <= length (skipl None [A; B]) /\ shape m2 <> map nrows (skipl None [A; B]).
+Proof. exact rejection_nonvacuous. Qed.
 
 (* KR[(i_1..i_n), r] = prod_k A_k[i_k, r] * w_r * mask[(i_1..i_n)], any number of matrices (also a single one), any skip;
    w_ok w R = the weights (if given) have exactly R entries, mask_ok mask n = the mask (if given) has exactly n entries (any
@@ -529,6 +639,37 @@ Example C02_validate_contraction_forms :
   validate_contraction [2; 3; 4] [4; 3] (MSeq [SList [0; 1]%Z; SList [0]%Z]) false = Err /\
   validate_contraction [2; 3; 4] [2; 3; 4] (MSeq [SInt 0%Z; SList [1]%Z; SInt 2%Z]) false = Err.
 Proof. exact validate_contraction_forms. Qed.
+
+(* the equations the einsum-backend models hand to `einsum` (eq_*: functions of orders / modes / operand kinds); the per-run source
+   tie compares them, up to label renaming, with the equation strings regenerated from the current Python source *)
+Theorem C02_mode_dot_einsum_equation : forall (F : Type) (Op : rops F) (T M : tensor F) (mode : nat) (tr : bool) (a b : nat), shape M = [a; b] ->
+  mode_dot_e Op T M mode tr =
+  if (mode <? ndim T) && ((if tr then a else b) =? nth mode (shape T) 0)
+  then Ok (einsum Op (fst (eq_mode_dot (ndim T) mode false)) (snd (eq_mode_dot (ndim T) mode false))
+                  [T; if tr then conj_t Op (transpose_rev Op M) else M]) else Err.
+Proof. exact @mode_dot_e_uses_eq. Qed.
+Print Assumptions C02_mode_dot_einsum_equation.
+
+Theorem C02_tensordot_einsum_equation : forall (F : Type) (Op : rops F) (A B : tensor F) (m1 m2 b1 b2 : list nat),
+  tensordot_e Op A B m1 m2 b1 b2 =
+  if validate_modes (shape A) (shape B) m1 m2 && validate_modes (shape A) (shape B) b1 b2
+  then Ok (einsum Op (fst (eq_tensordot (ndim A) (ndim B) m1 m2 b1 b2)) (snd (eq_tensordot (ndim A) (ndim B) m1 m2 b1 b2)) [A; B]) else Err.
+Proof. exact @tensordot_e_uses_eq. Qed.
+Print Assumptions C02_tensordot_einsum_equation.
+
+Theorem C02_inner_einsum_equation : forall (F : Type) (Op : rops F) (A B : tensor F) (n : nat),
+  inner_e Op A B (Some n) =
+  if (n <=? ndim A) && nat_list_eq (skipn (ndim A - n) (shape A)) (firstn n (shape B))
+  then Ok (einsum Op (fst (eq_inner (ndim A) (ndim B) n)) (snd (eq_inner (ndim A) (ndim B) n)) [A; B]) else Err.
+Proof. exact @inner_e_uses_eq. Qed.
+Print Assumptions C02_inner_einsum_equation.
+
+Theorem C02_multi_mode_dot_einsum_equation : forall (F : Type) (Op : rops F) (T : tensor F) (Ms : list (tensor F)) modes skip tr R,
+  multi_mode_dot_e Op T Ms modes skip tr = Ok R ->
+  exists st ops, mmd_e_loop Op (sort_by_mode (zip3 Ms modes)) skip tr (ndim T) (mkS [] [] (seq 0 (ndim T)) (ndim T + 1) 0) = Ok st /\
+             R = einsum Op (seq 0 (ndim T) :: s_ins st) (s_out st) ops.
+Proof. exact @multi_mode_dot_e_equation. Qed.
+Print Assumptions C02_multi_mode_dot_einsum_equation.
 
 (* the order in which the generic einsum semantics sums its (distinct) labels does not matter *)
 Theorem C02_einsum_summation_order : forall (F : Type) (Op : rops F), ring_of Op ->
